@@ -1,7 +1,7 @@
 (** The hand-written attribute model (Core/Attrs.v: attrs_of; Idp/AttrQuery.v: filter_attrs) is what the builder programs
     translated from attributes.go / response.go compute, for every user record and every list of requested attributes:
     the lists the programs build abstract -- field by field -- to the model's lists. *)
-From Saml Require Import Base.Bytes Idp.Callback Core.Attrs Idp.AttrQuery Idp.BuilderTypes Idp.Builder Gen.Builders Idp.BuiltDoc Idp.GetSamlAll Idp.SuccessAny Idp.QueryFilter.
+From Saml Require Import Base.Bytes Idp.Callback Core.Attrs Idp.AttrQuery Idp.Logout Idp.BuilderTypes Idp.Builder Gen.Builders Idp.BuiltDoc Idp.GetSamlAll Idp.SuccessAny Idp.QueryFilter.
 From Coq Require Import List String Bool. Import ListNotations.
 Local Open Scope string_scope.
 Local Open Scope list_scope.
@@ -45,9 +45,6 @@ Theorem getsaml_refines u fr issue until :
   exists l, built_value "GetSAML" (Some (user_rec u)) [] fr issue until = Some (DList l, fr) /\ map attr_of_dval l = attrs_of u.
 Proof. exists (getsaml_list u). split; [apply getsaml_any|apply abs_getsaml]. Qed.
 
-Lemma built_sat_mono fn recv args fresh issue until (P Q : dval -> list bytes -> Prop) :
-  built_sat fn recv args fresh issue until P -> (forall d r, P d r -> Q d r) -> built_sat fn recv args fresh issue until Q.
-Proof. unfold built_sat. intros H HQ. destruct (built_value fn recv args fresh issue until) as [[d r]|]; [apply HQ, H|exact H]. Qed.
 
 (** the answer to an attribute query, as a program, carries the model's filter_attrs (requested) (attrs_of u) *)
 Theorem attrquery_refines reqid issuer sp u (qs : list dval) id1 id2 rest issue until :
@@ -76,6 +73,90 @@ Proof.
   eapply built_sat_mono; [exact (success_attributes_any reqid acs issuer audience (u_email u) (u_fullname u) (u_given u) (u_surname u) (u_userid u) (u_username u)
                          (map dcustom_of (u_custom u)) id1 id2 rest issue until)|].
   intros d r [Hr Hd]. split; [exact Hr|]. eexists. split; [exact Hd|]. apply abs_getsaml.
+Qed.
+
+(** REFINEMENT of the whole Success message.  The callback model (Idp/Callback.v) describes the reply by the abstract message
+    {| m_in_response_to; m_destination; m_audience; m_resp := CSuccess u _ |} (C03_fields); the document the translated
+    programs build for the same stored request, entity ID and user abstracts to exactly that message: request ID on the
+    Response and in the subject confirmation, consumer URL as Destination and Recipient (absent iff empty), the entity ID as
+    the only audience, the user name as NameID, the model's attribute list -- for every stored request and every user *)
+Definition opt_str (d : option dval) : bytes := match d with Some (DStr x) => x | _ => [] end.
+Theorem success_message_refines rec ent issuer u sg id1 id2 rest issue until :
+  let M := {| m_in_response_to := sr_reqid rec; m_destination := sr_acs rec; m_audience := ent; m_resp := CSuccess u sg |} in
+  built_sat "makeSuccessfulResponse" (Some (response_rec (sr_reqid rec) (sr_acs rec) issuer ent)) [user_rec u; DStr (b "f"); DNil] (id1 :: id2 :: rest) issue until
+    (fun d r => r = rest /\
+       opt_str (at_ d ["InResponseTo"]) = m_in_response_to M /\ opt_str (dget d (sc_data ++ [PField "InResponseTo"])) = m_in_response_to M /\
+       opt_str (at_ d ["Destination"]) = m_destination M /\ opt_str (dget d (sc_data ++ [PField "Recipient"])) = m_destination M /\
+       (at_ d ["Destination"] = None <-> m_destination M = []) /\
+       dget d [PField "Assertion"; PField "Conditions"; PField "AudienceRestriction"; PIndex 0; PField "Audience"] = Some (DList [DStr (m_audience M)]) /\
+       opt_str (at_ d ["Assertion"; "Subject"; "NameID"; "Text"]) = nameid_of u /\
+       exists l, dget d [PField "Assertion"; PField "AttributeStatement"; PIndex 0; PField "Attribute"] = Some (DList l) /\
+                 map attr_of_dval l = attrs_of u).
+Proof.
+  intro M. unfold user_rec.
+  eapply built_sat_mono; [exact (success_all_any (sr_reqid rec) (sr_acs rec) issuer ent (u_email u) (u_fullname u) (u_given u) (u_surname u) (u_userid u) (u_username u)
+                         (map dcustom_of (u_custom u)) id1 id2 rest issue until)|].
+  intros d r (Hr & _ & _ & H1 & H2 & H3 & H4 & _ & _ & H5 & H6 & _ & H7).
+  split; [exact Hr|]. rewrite H1, H2, H3, H4, H6. cbn [M m_in_response_to m_destination m_audience opt_str].
+  repeat split; auto.
+  - destruct (sr_acs rec); reflexivity.
+  - destruct (sr_acs rec); reflexivity.
+  - destruct (sr_acs rec); [reflexivity|discriminate].
+  - destruct (sr_acs rec); [reflexivity|discriminate].
+  - eexists. split; [exact H7|apply abs_getsaml].
+Qed.
+
+(** REFINEMENT of the whole attribute query answer: the abstract message of the attribute query model (Idp/AttrQuery.v, amsg;
+    C12_answered) is what the document built by the translated program abstracts to -- for every user record and every list
+    of requested attributes *)
+Theorem attrquery_message_refines reqid issuer sp u (qs : list dval) id1 id2 rest issue until :
+  Forall wf_attr qs ->
+  let M := {| am_in_response_to := reqid; am_issuer := issuer; am_audience := sp; am_nameid := nameid_of u;
+              am_attrs := filter_attrs (requested_of qs) (attrs_of u) |} in
+  built_sat "makeAttributeQueryResponse" None
+    [DStr reqid; DStr issuer; DStr sp; user_rec u; DList qs; DStr (b "f"); DNil] (id1 :: id2 :: rest) issue until
+    (fun d r => r = rest /\
+       opt_str (at_ d ["InResponseTo"]) = am_in_response_to M /\ opt_str (dget d (sc_data ++ [PField "InResponseTo"])) = am_in_response_to M /\
+       at_ d ["Destination"] = None /\ dget d (sc_data ++ [PField "Recipient"]) = None /\
+       opt_str (at_ d ["Issuer"; "Text"]) = am_issuer M /\ opt_str (at_ d ["Assertion"; "Issuer"; "Text"]) = am_issuer M /\
+       dget d [PField "Assertion"; PField "Conditions"; PField "AudienceRestriction"; PIndex 0; PField "Audience"] = Some (DList [DStr (am_audience M)]) /\
+       opt_str (at_ d ["Assertion"; "Subject"; "NameID"; "Text"]) = am_nameid M /\
+       exists l, dget d [PField "Assertion"; PField "AttributeStatement"; PIndex 0; PField "Attribute"] = Some (DList l) /\
+                 map attr_of_dval l = am_attrs M).
+Proof.
+  intros W M. unfold user_rec.
+  eapply built_sat_mono; [exact (aq_all_any reqid issuer sp (u_email u) (u_fullname u) (u_given u) (u_surname u) (u_userid u) (u_username u)
+                         (map dcustom_of (u_custom u)) qs id1 id2 rest issue until W)|].
+  intros d r (Hr & H1 & H2 & H3 & H4 & H5 & H6 & H7 & H8 & _ & H9).
+  split; [exact Hr|]. rewrite H1, H2, H5, H6, H7, H8. cbn [M am_in_response_to am_issuer am_audience am_nameid am_attrs opt_str].
+  repeat split; auto.
+  eexists. split; [exact H9|]. rewrite abs_filter. f_equal. apply abs_getsaml.
+Qed.
+
+(** the failed Response and the LogoutResponse (closed programs: no loops) against the abstract messages of their models *)
+Theorem failed_message_refines rec ent issuer st msg id1 rest issue until :
+  let M := {| m_in_response_to := sr_reqid rec; m_destination := sr_acs rec; m_audience := ent; m_resp := CFailed st msg |} in
+  built_sat "makeFailedResponse" (Some (response_rec (sr_reqid rec) (sr_acs rec) issuer ent)) [DStr st; DStr msg; DStr (b "f")] (id1 :: rest) issue until
+    (fun d r => r = rest /\
+       opt_str (at_ d ["InResponseTo"]) = m_in_response_to M /\ opt_str (at_ d ["Destination"]) = m_destination M /\
+       (at_ d ["Destination"] = None <-> m_destination M = []) /\
+       m_resp M = CFailed (opt_str (at_ d ["Status"; "StatusCode"; "Value"])) (opt_str (at_ d ["Status"; "StatusMessage"])) /\
+       at_ d ["Assertion"] = None).
+Proof.
+  intro M. eapply built_sat_mono; [exact (failed_response_fields (sr_reqid rec) (sr_acs rec) issuer ent st msg id1 rest issue until)|].
+  intros d r (Hr & _ & H1 & _ & H2 & H3 & _ & H4 & H5). split; [exact Hr|]. rewrite H1, H2, H3, H4, H5.
+  cbn [M m_in_response_to m_destination m_resp opt_str]. repeat split; auto; destruct (sr_acs rec); try reflexivity; discriminate.
+Qed.
+Theorem logout_message_refines reqid url issuer id1 rest issue until :
+  let M := {| lm_status := b "urn:oasis:names:tc:SAML:2.0:status:Success"; lm_in_response_to := reqid; lm_issuer := issuer; lm_destination := url |} in
+  built_sat "makeSuccessfulLogoutResponse" (Some (logout_rec reqid url issuer)) [DStr (b "f")] (id1 :: rest) issue until
+    (fun d r => r = rest /\
+       opt_str (at_ d ["Status"; "StatusCode"; "Value"]) = lm_status M /\ opt_str (at_ d ["InResponseTo"]) = lm_in_response_to M /\
+       opt_str (at_ d ["Issuer"; "Text"]) = lm_issuer M /\ opt_str (at_ d ["Destination"]) = lm_destination M).
+Proof.
+  intro M. destruct (logout_response_fields reqid url issuer [] [] id1 rest issue until) as [_ H].
+  eapply built_sat_mono; [exact H|].
+  intros d r (Hr & _ & H1 & H2 & H3 & _ & H4). split; [exact Hr|]. rewrite H1, H2, H3, H4. repeat split.
 Qed.
 
 (** non-vacuity: a user with two custom attributes, a query for one of them by name and format *)
